@@ -22,8 +22,11 @@ import (
 //	scn <layout> <t>:<op> <t>:<op> ...      layout: plain | sym | k8s ; t = ms after scenario start
 //	  ops: w overwrite in place   a append        d delete      c create again
 //	       r replace by rename    s symlink swap  k k8s ..data swap   x touch an unrelated file
+//	       q the consumer stops receiving from Watch() (what Core does before it closes its resources)
 //
-// Answer: "loaded=<0|1> nsig=<k> c0=<id> fin=<content> P<t>,<op>… E<t>,<cur>,<isCur>,<wc>… S<t>,<content>…"
+// Answer: "loaded=<0|1> nsig=<k> c0=<id> fin=<content> closed=<0|1> q=<0|1> P<t>,<op>… E<t>,<cur>,<isCur>,<wc>… S<t>,<content>…"
+//   closed = Close() returned within 2 s (called after the silence, from a goroutine with a watchdog);
+//   q = the consumer had stopped receiving before the end (then `loaded` says nothing);
 //   P = step finished at t; E = event delivered by fsnotify (to a second watcher on the same
 //   directory) with the resolved watched path at that moment (0 = missing) and whether the event is
 //   a Write/Create on it; S = signal received by the consumer at t and the content it then loaded
@@ -139,6 +142,8 @@ func verifC38RunOnce(layout string, steps []verifC38Step) (string, bool) {
 	ms := func() int { return int(time.Since(start) / time.Millisecond) }
 
 	stop := make(chan struct{})
+	quit := make(chan struct{}) // closed by step q: the consumer goes away
+	quitted := false
 	var wg sync.WaitGroup
 	wg.Add(2)
 	go func() { // the events fsnotify delivers for this directory
@@ -179,6 +184,8 @@ func verifC38RunOnce(layout string, steps []verifC38Step) (string, bool) {
 				lg.mu.Lock()
 				lg.sigs = append(lg.sigs, fmt.Sprintf("S%d,%d", t, c))
 				lg.mu.Unlock()
+			case <-quit:
+				return
 			case <-stop:
 				return
 			}
@@ -231,6 +238,11 @@ func verifC38RunOnce(layout string, steps []verifC38Step) (string, bool) {
 			realPath = filepath.Join(dir, d, "conf.yml")
 		case "x":
 			os.WriteFile(filepath.Join(dir, "unrelated.txt"), content, 0o644) //nolint:errcheck
+		case "q":
+			if !quitted {
+				quitted = true
+				close(quit)
+			}
 		default:
 			panic("verif: bad step " + st.op)
 		}
@@ -244,7 +256,20 @@ func verifC38RunOnce(layout string, steps []verifC38Step) (string, bool) {
 	}
 
 	fin := verifC38Content(os.ReadFile(conf))
-	w.Close()
+
+	// shutdown must complete whatever the loop is doing (it may be about to report a held-back change
+	// to a consumer that is gone)
+	closed := 0
+	closeDone := make(chan struct{})
+	go func() {
+		w.Close()
+		close(closeDone)
+	}()
+	select {
+	case <-closeDone:
+		closed = 1
+	case <-time.After(2 * time.Second):
+	}
 	close(stop)
 	wg.Wait()
 
@@ -259,7 +284,11 @@ func verifC38RunOnce(layout string, steps []verifC38Step) (string, bool) {
 	if lastLoaded == fin {
 		loaded = 1
 	}
-	out := fmt.Sprintf("loaded=%d nsig=%d c0=%d fin=%d", loaded, len(lg.sigs), c0, fin)
+	q := 0
+	if quitted {
+		q = 1
+	}
+	out := fmt.Sprintf("loaded=%d nsig=%d c0=%d fin=%d closed=%d q=%d", loaded, len(lg.sigs), c0, fin, closed, q)
 	for _, s := range [][]string{done, lg.events, lg.sigs} {
 		if len(s) > 0 {
 			out += " " + strings.Join(s, " ")
@@ -302,6 +331,19 @@ func verifC38Exec(op string) string {
 var verifC38Gaps = []int{0, 3, 8, 12, 25, 60, 150, 300, 500, 700, 850, 950, 1000, 1050, 1150, 1300, 1500}
 
 func verifC38GenOne(r *verifutil.Rand) string {
+	if r.Chance(1, 5) {
+		// shutdown while a held-back change waits for its timer: a change is reported, the consumer
+		// goes away, one more change follows inside minInterval, then silence and Close()
+		layout := r.Pick("plain", "sym", "k8s")
+		ch := map[string]string{"plain": "w", "sym": "s", "k8s": "k"}[layout]
+		t0 := r.Intn(3) * 20
+		tq := t0 + 40 + r.Intn(200)
+		t1 := tq + 10 + r.Intn(600)
+		if r.Chance(1, 4) { // no change after the consumer left: nothing is held back
+			return fmt.Sprintf("scn %s %d:%s %d:q", layout, t0, ch, tq)
+		}
+		return fmt.Sprintf("scn %s %d:%s %d:q %d:%s", layout, t0, ch, tq, t1, ch)
+	}
 	layout := r.Pick("plain", "plain", "sym", "k8s")
 	n := 1 + r.Intn(4)
 	t := r.Intn(3) * 20
@@ -400,6 +442,10 @@ func TestVerifC38(t *testing.T) {
 			switch {
 			case strings.HasPrefix(impl, "skip"):
 				return k + "/skipped"
+			case strings.Contains(impl, " closed=0"):
+				return k + "/close-hangs"
+			case strings.Contains(impl, " q=1"):
+				return k + "/shutdown"
 			case strings.HasPrefix(impl, "loaded=1"):
 				return k + "/loaded"
 			case strings.HasPrefix(impl, "loaded=0"):
